@@ -542,6 +542,23 @@ void rational_interval_mul(lp_rational_interval_t* P, const lp_rational_interval
       result.b_open = tmp_open;
     }
 
+    // If an endpoint is 0 and one of the factors has a closed endpoint 0,
+    // then 0 is attained (0 times any point of the other factor)
+    if (rational_sgn(&result.a) == 0 || rational_sgn(&result.b) == 0) {
+      int c1_a = (rational_sgn(&I1->a) == 0) && !I1->a_open;
+      int c1_b = (rational_sgn(&I1->b) == 0) && !I1->b_open;
+      int c2_a = (rational_sgn(&I2->a) == 0) && !I2->a_open;
+      int c2_b = (rational_sgn(&I2->b) == 0) && !I2->b_open;
+      if (c1_a || c1_b || c2_a || c2_b) {
+        if (rational_sgn(&result.a) == 0) {
+          result.a_open = 0;
+        }
+        if (rational_sgn(&result.b) == 0) {
+          result.b_open = 0;
+        }
+      }
+    }
+
     lp_rational_interval_swap(&result, P);
     lp_rational_interval_destruct(&result);
     rational_destruct(&tmp);
@@ -653,6 +670,23 @@ void dyadic_interval_mul(lp_dyadic_interval_t* P, const lp_dyadic_interval_t* I1
     if (dyadic_interval_endpoint_lt(&result.b, !result.b_open, &tmp, !tmp_open)) {
       dyadic_rational_swap(&tmp, &result.b);
       result.b_open = tmp_open;
+    }
+
+    // If an endpoint is 0 and one of the factors has a closed endpoint 0,
+    // then 0 is attained (0 times any point of the other factor)
+    if (dyadic_rational_sgn(&result.a) == 0 || dyadic_rational_sgn(&result.b) == 0) {
+      int c1_a = (dyadic_rational_sgn(&I1->a) == 0) && !I1->a_open;
+      int c1_b = (dyadic_rational_sgn(&I1->b) == 0) && !I1->b_open;
+      int c2_a = (dyadic_rational_sgn(&I2->a) == 0) && !I2->a_open;
+      int c2_b = (dyadic_rational_sgn(&I2->b) == 0) && !I2->b_open;
+      if (c1_a || c1_b || c2_a || c2_b) {
+        if (dyadic_rational_sgn(&result.a) == 0) {
+          result.a_open = 0;
+        }
+        if (dyadic_rational_sgn(&result.b) == 0) {
+          result.b_open = 0;
+        }
+      }
     }
 
     lp_dyadic_interval_swap(&result, P);
